@@ -358,7 +358,7 @@ theorem syncT_holds (trk fuel master wfr q1 q2 q3 q4 q5 MPre) (hM : MasterSpec t
   · intro out ho; exec_simp_at ho [stWaitInit]; subst ho
     obtain ⟨h1, h2, h3, h4, h5, h6⟩ := hq
     simp only [Ok_nil_iff, SP]
-    refine ⟨h1, h2, h3, ?_, hS _ _ _ (Or.inr (Or.inr rfl)) h5, h6⟩
+    refine ⟨h1, h2, h3, ?_, hS _ _ _ (Or.inr (Or.inr ⟨rfl, 0, rfl⟩)) h5, h6⟩
     simpa [gpCtr] using h4
   intro e i s w hq
   -- urcu_wait_add
